@@ -535,3 +535,18 @@ def replay(prop, mod, path):
         return 1
     print("the recorded case no longer fails the implementation-side oracle")
     return 0
+
+
+def table_stage(res):
+    """Kind-E tie: regenerate Extracted/Tables.v from /repo's sources and re-prove Proofs/TablesCheck.v.
+    Returns (ok, info): ok=False means a table/constant in the source no longer equals the model's."""
+    from . import extract_tables
+    ok, note, info = extract_tables.main()
+    if not ok:
+        res.notes.append("table extraction failed open: " + note)
+        return True, None
+    good, log = coq_build(["theories/Proofs/TablesCheck.vo"])
+    res.obligation(good, "tables/constants extracted from /repo sources equal the model's (Proofs/TablesCheck.v): " + log[-800:])
+    if not good:
+        res.extra["tables_check_log"] = log[-2000:]
+    return good, info
